@@ -539,6 +539,8 @@ struct Env {
     in_hand: Option<usize>,
     handles_at_turn: usize,
     faults_at_turn: usize,
+    mask_at_turn: usize,
+    dmarked: Vec<bool>,
     points: Vec<(String, usize)>,
     anchored: Vec<(String, usize, Act, bool)>, // kind, nth (1-based, per iteration), action, fired
     point_counts: HashMap<String, usize>,
@@ -609,6 +611,8 @@ pub struct Snap {
     pub dafterfail: Vec<bool>,
     pub dmaxload: Vec<usize>,
     pub davail: Vec<usize>,
+    /// per dispatch: the target's availability bit was set at the last turn of the rotation (or no bit was set at all)
+    pub dmarked: Vec<bool>,
     pub inprog: Vec<Vec<usize>>,
     pub finished: Vec<usize>,
     pub uds_path: Vec<bool>,
@@ -947,7 +951,8 @@ impl Env {
 
     fn on_point(&mut self, kind: &'static str, arg: usize) {
         // (the "turn" point carries the number of handles in its upper bits; the recorded argument is `next` as before)
-        let turn_handles = arg >> 16;
+        let turn_handles = (arg >> 16) & 0xffff;
+        let turn_mask = arg >> 32;
         let arg = if kind == "turn" { arg & 0xffff } else { arg };
         self.points.push((kind.to_string(), arg));
         match kind {
@@ -955,6 +960,7 @@ impl Env {
                 // handles in the rotation / faults reported so far, at the last turn of the connection in hand
                 self.collect_faults();
                 self.handles_at_turn = turn_handles;
+                self.mask_at_turn = turn_mask;
                 self.faults_at_turn = self.faults.len();
                 self.turns += 1;
                 if self.turns > self.max_turns {
@@ -967,6 +973,8 @@ impl Env {
                 if let Some(cid) = self.in_hand.take() {
                     let gen = self.workers.get(arg).map(|w| w.gen).unwrap_or(0);
                     self.dispatched.push((cid, arg, gen));
+                    // the target was marked available at the last turn of the rotation, or nobody was (forced hand-over)
+                    self.dmarked.push(self.mask_at_turn == 0 || self.mask_at_turn & (1 << arg) != 0);
                     self.dclean.push(true);
                     self.collect_faults();
                     self.dload.push(self.load_gen(arg));
@@ -1103,6 +1111,8 @@ impl Sim {
             in_hand: None,
             handles_at_turn: 0,
             faults_at_turn: 0,
+            mask_at_turn: 0,
+            dmarked: vec![],
             points: vec![],
             anchored: vec![],
             point_counts: HashMap::new(),
@@ -1356,6 +1366,7 @@ impl Sim {
         s.dmaxload = e.dmaxload.clone();
         s.wwoken = e.workers.iter().map(|w| w.flag.0.load(Ordering::SeqCst)).collect();
         s.davail = e.davail.clone();
+        s.dmarked = e.dmarked.clone();
         s.in_hand = e.in_hand.map(|c| c as i64).unwrap_or(-1);
         s.inprog = vec![vec![]; n];
         {
